@@ -183,7 +183,7 @@ def _panel(task, rec):
 
 
 # ------------------------------------------------------------------ operation histories on one Database
-H_OPS = ['new', 'new_big', 'll', 'sim', 'remove', 'boot', 'init0', 'init_half', 'thr1', 'thr3']
+H_OPS = ['new', 'new_big', 'll', 'sim', 'remove', 'boot', 'init0', 'init_half', 'thr1', 'thr3', 'refused']
 
 
 def _history_rows(nrows):
@@ -236,6 +236,18 @@ def _run_history(hist, rec):
             elif b is None or not created_after_remove:
                 rec.count('history_steps_not_applicable')
                 return
+            elif op == 'refused':
+                # three requests the library refuses (each must raise; nothing may be left behind by them)
+                n_ref = 0
+                for bad in (lambda: b.calculate_likelihood(np.array([0.1] * (len(b.free_beta_names) + 1)), scaled=False),
+                            lambda: b.simulate(None),
+                            lambda: b.simulate({list(b.free_beta_names)[0]: 0.1}) if len(b.free_beta_names) > 1 else b.simulate(None),
+                            lambda: b.calculate_likelihood_and_derivatives(np.array([0.1] * (len(b.free_beta_names) + 2)), scaled=False)):
+                    try:
+                        bad()
+                    except Exception:
+                        n_ref += 1
+                rec.case(key, (hist[:step + 1], n_ref), outcome=('refused', n_ref))
             elif op in ('thr1', 'thr3'):
                 # the thread count is changed on the live object (number_of_threads setter), as a user does between two uses
                 b.number_of_threads = int(op[3:])
@@ -310,8 +322,8 @@ def history_list(tier):
                 continue
             out.append(list(h))
         # depth 5 over the sub-alphabet around the thread count of a live object
-        for h in itertools.product(['new', 'thr1', 'thr3', 'll', 'sim', 'boot'], repeat=5):
-            if h[0] != 'new' or h[-1] not in ('ll', 'sim') or h.count('boot') > 1 or not any(o.startswith('thr') for o in h):
+        for h in itertools.product(['new', 'thr1', 'thr3', 'll', 'sim', 'boot', 'refused'], repeat=5):
+            if h[0] != 'new' or h[-1] not in ('ll', 'sim') or h.count('boot') > 1 or not any(o.startswith('thr') or o == 'refused' for o in h):
                 continue
             out.append(list(h))
     return out
